@@ -167,6 +167,11 @@ pub fn gen_evidence(r: &mut Rng) -> EvidenceSet {
     if r.chance(1, 150) {
         return gen_hub(r);
     }
+    if r.chance(1, 40) {
+        // a type nested 12-61 levels deep described twice, only the outermost
+        // pair declared equal: one level resolves per round (C15's generator)
+        return super::c15::generate_deep(r).ev;
+    }
     let cap = if r.chance(1, 4) { 39 } else { 10 };
     let n_vars = 2 + r.usize_below(cap);
     let n_j = 1 + r.usize_below(3 * n_vars);
@@ -508,7 +513,7 @@ impl Check for C14Check {
         CheckInfo {
             id: "C14",
             level: "exploration",
-            rule: "case = one generated judgement set over 2..40 type variables (equalities, words of all usages x widths {?,8,32,160,192,256}, dynamic bytes, mappings, fixed arrays of lengths 0, 1, 3, 5 and 2^200+3, dynamic arrays, Any; half of the sets also packed encodings with well-formed or arbitrary overlapping/unsorted spans; cyclic references in 1 of 5 sets; 1 of 8 sets is a ring of 1..3 packed encodings whose first span is the next variable of the ring plus a sized word, the family that reaches the unifier's stagnation check and round limit; 1 of 150 is one class of 1 200..3 000 variables declared equal as a star or a chain), unified under 6 schedules (3 natural hash keys, reverse-all, fold kind-sorted, seeded random) that rotate through nine equivalent ways of handing the set to the library (plain; the state object used twice with half of the variables allocated the way rules allocate them; equalities recorded on one side only; through TypeChecker::unify; in two stages with a unification in between, through the free function or through the checker; equalities through infer_many; a clone of the state unified and observed); harness variables are opaque values, repeated registrations of the constant 1 and of CALLER; evaluations = unifier runs; non-trivial = the run folded at least one class with >= 2 pieces of evidence; distinct = distinct (judgement set, fold-order digest), counted with a hash set",
+            rule: "case = one generated judgement set over 2..40 type variables (equalities, words of all usages x widths {?,8,32,160,192,256}, dynamic bytes, mappings, fixed arrays of lengths 0, 1, 3, 5 and 2^200+3, dynamic arrays, Any; half of the sets also packed encodings with well-formed or arbitrary overlapping/unsorted spans; cyclic references in 1 of 5 sets; 1 of 8 sets is a ring of 1..3 packed encodings whose first span is the next variable of the ring plus a sized word, the family that reaches the unifier's stagnation check and round limit; 1 of 150 is one class of 1 200..3 000 variables declared equal as a star or a chain; 1 of 40 is a type nested 12..61 levels deep described twice with only the outermost pair declared equal), unified under 6 schedules (3 natural hash keys, reverse-all, fold kind-sorted, seeded random) that rotate through nine equivalent ways of handing the set to the library (plain; the state object used twice with half of the variables allocated the way rules allocate them; equalities recorded on one side only; through TypeChecker::unify; in two stages with a unification in between, through the free function or through the checker; equalities through infer_many; a clone of the state unified and observed); harness variables are opaque values, repeated registrations of the constant 1 and of CALLER; evaluations = unifier runs; non-trivial = the run folded at least one class with >= 2 pieces of evidence; distinct = distinct (judgement set, fold-order digest), counted with a hash set",
             assumptions: &[
                 "the unifier is driven through TypeCheckerState::register/infer and unification::unify, as the type checker itself does",
                 "reference model is one-directional: model-equal implies implementation-equal; additional unions are not forbidden",
